@@ -3,9 +3,11 @@
 //   N <id> <n> <m> <nops> <kind>      kind: I = IncSolver, S = static Solver (ops must then be exactly one S or F)
 //   v <des> <wt> <scl>                n lines, numbers as  p/q  (decimal integers, q a power of two mostly)
 //   c <l> <r> <gap> <eq>              m lines
-//   o S | o F | o A <l> <r> <gap> <eq> | o D <i> <d>      nops lines
+//   o S | o F | o A <l> <r> <gap> <eq> | o D <i> <d> | o W <i> <w>      nops lines
+//   (W: the caller assigns the public field Variable::weight, w > 0, between solves - the lock / fixPos idiom)
 // Output per instance:  "I <id>"  then per S/F op one line
-//   r <opidx> <status> P <hexfloat>*n B <blocklabel>*n A <01..> U <01..>
+//   r <opidx> <status> P <hexfloat>*n B <blocklabel>*n A <01..> U <01..> F <finite> W <act_inv> [T <j>]
+//   T <j> (static Solver, after a throw): index of the constraint the closing scan reported (-1 if unknown)
 // status: ok | throw_char | throw_unsatisfied | throw_assert | throw_other | nonfinite
 // Compile with -DUSE_AVOID_NS to exercise the copy in libavoid/vpsc.cpp (namespace Avoid, IncSolver only).
 #include <cstddef>
@@ -48,7 +50,7 @@ static double rat(const char *s)
 
 struct Op { char kind; int a, b; double g; int eq; };
 
-static void report(int opidx, const char *status, V::Variables &vs, V::Constraints &cs)
+static void report(int opidx, const char *status, V::Variables &vs, V::Constraints &cs, int thrown = -2)
 {
     printf("r %d %s P", opidx, status);
     bool finite = true;
@@ -82,7 +84,9 @@ static void report(int opidx, const char *status, V::Variables &vs, V::Constrain
         double m = std::fabs(r->offset) + std::fabs(l->offset) + std::fabs(cs[j]->gap) + 1.0;
         if (l->block != r->block || std::fabs(d) > 1e-9 * m) wf = false;
     }
-    printf(" F %d W %d\n", finite ? 1 : 0, wf ? 1 : 0);
+    printf(" F %d W %d", finite ? 1 : 0, wf ? 1 : 0);
+    if (thrown != -2) printf(" T %d", thrown);
+    printf("\n");
 }
 
 static void run_inc(std::vector<Op> &ops, V::Variables &vs, V::Constraints &cs)
@@ -96,6 +100,8 @@ static void run_inc(std::vector<Op> &ops, V::Variables &vs, V::Constraints &cs)
             solver.addConstraint(c);
         } else if (o.kind == 'D') {
             vs[o.a]->desiredPosition = o.g;
+        } else if (o.kind == 'W') {
+            vs[o.a]->weight = o.g;
         } else {
             const char *status = "ok";
             try {
@@ -120,15 +126,27 @@ static void run_static(std::vector<Op> &ops, V::Variables &vs, V::Constraints &c
         Op &o = ops[k];
         if (o.kind != 'S' && o.kind != 'F') continue;
         const char *status = "ok";
+        int thrown = -2;
         try {
             if (o.kind == 'S') solver.solve(); else solver.satisfy();
         } catch (char *) { status = "throw_char";
         } catch (const char *) { status = "throw_char";
-        } catch (V::UnsatisfiedConstraint &) { status = "throw_unsatisfied";
+        } catch (V::UnsatisfiedConstraint &e) {
+            status = "throw_unsatisfied";
+            thrown = -1;
+            for (size_t j = 0; j < cs.size(); ++j) if (cs[j] == &e.c) { thrown = (int) j; break; }
         } catch (V::UnsatisfiableException &) { status = "throw_unsatisfiable";
-        } catch (vpsc::CriticalFailure &f) { status = "throw_assert"; fprintf(stderr, "%s\n", f.what().c_str());
+        } catch (vpsc::CriticalFailure &f) {
+            // built with USE_ASSERT_EXCEPTIONS the COLA_ASSERT in front of `throw UnsatisfiedConstraint` in
+            // Solver::refine() fires first: same report, the constraint is the first one the scan finds
+            status = "throw_assert"; fprintf(stderr, "%s\n", f.what().c_str());
+            thrown = -1;
+            if (f.what().find("slack()>ZERO_UPPERBOUND") != std::string::npos) {
+                status = "throw_unsatisfied";
+                for (size_t j = 0; j < cs.size(); ++j) if (cs[j]->slack() < -1e-10) { thrown = (int) j; break; }
+            }
         } catch (...) { status = "throw_other"; }
-        report((int) k, status, vs, cs);
+        report((int) k, status, vs, cs, thrown);
         return;                        // the static solver is single-shot
     }
 }
@@ -161,6 +179,7 @@ int main(int argc, char **argv)
             if (line[2] == 'S' || line[2] == 'F') o.kind = line[2];
             else if (line[2] == 'A') { o.kind = 'A'; sscanf(line, "o A %d %d %255s %d", &o.a, &o.b, a, &o.eq); o.g = rat(a); }
             else if (line[2] == 'D') { o.kind = 'D'; sscanf(line, "o D %d %255s", &o.a, a); o.g = rat(a); }
+            else if (line[2] == 'W') { o.kind = 'W'; sscanf(line, "o W %d %255s", &o.a, a); o.g = rat(a); }
             ops.push_back(o);
         }
         printf("I %d\n", id);
